@@ -5,6 +5,16 @@ import PkgProofs.Lemmas.MarkerEval
 /-!
 # Translated source of the evaluation part of `packaging/markers.py` = the model (`Mk.evalOp`, `Mk.normalize`,
 `Mk.lookupEnv`, `Mk.evalMarkers`, `Mk.buildEnv`, `Mk.evaluate`)
+
+* `_eval_op_eq_model`, `_normalize_eq_model`, `_get_env_eq_model`: the three helpers;
+* `_evaluate_markers_eq_model`: by induction on the recursion fuel (`_evaluate_markers__fuel_eq_model`); the
+  `for marker in markers` loop is handled by `evalLoop_forIn` (a loop lemma over an abstract body satisfying `StepSpec`),
+  which is applied to the generated body by unification, so that the text of the body is not repeated here;
+* `_repair_python_full_version_eq_model`, `Marker.evaluate_eq_model`: dicts against the model's association lists
+  (`EnvRel`); `Marker.evaluate_eq_model` needs the keys of the default environment to be pairwise distinct
+  (`Marker.evaluate_dup_keys_counterexample` shows why); `Marker.evaluate_eq_model'` has the weakest form of that
+  hypothesis (`DfltDict`);
+* `format_full_version_eq_model`.
 -/
 set_option linter.unusedSimpArgs false
 namespace Src
@@ -256,11 +266,11 @@ theorem _eval_op_eq_model (O : PyMk.Oracle) (lhs op rhs : Str) :
   have c1 : catches "InvalidSpecifier" "InvalidSpecifier" = true := by decide
   have c2 : catches "InvalidVersion" "InvalidVersion" = true := by decide
   cases hs : O.specOk (op ++ rhs) with
-  | false => simp [c1]; rfl
+  | false => simp [c1] <;> rfl
   | true =>
     simp only [if_true, ok_bind, stateT_pure_apply, tryCatch_ok', ext_contains]
     cases hc : O.specContains (op ++ rhs) lhs with
-    | none => simp [c2]; rfl
+    | none => simp [c2] <;> rfl
     | some b => simp [ofRes]
 
 /-! ## `_normalize`, `_get_env` -/
@@ -795,11 +805,11 @@ theorem Marker.evaluate_eq_model' (O : PyMk.Oracle) (hd : DfltDict O) (supplied 
     simp only [ofSupplied, isNone_dict, Bool.not_false, if_true, dict_update, pure_ok, ok_bind, dict_getitem_str,
       h1 Mk.s_extra]
     have hc : MkEval.cur1 O.dflt (some e) =
-        match ((O.dflt.map fun p => (p.1, some p.2)) ++ [(Mk.s_extra, some [])] ++ e).get? Mk.s_extra with
-        | some none => (O.dflt.map fun p => (p.1, some p.2)) ++ [(Mk.s_extra, some [])] ++ e ++ [(Mk.s_extra, some [])]
-        | _ => (O.dflt.map fun p => (p.1, some p.2)) ++ [(Mk.s_extra, some [])] ++ e := by rfl
+        match Mk.Env.get? ((O.dflt.map fun p : Str × Str => (p.1, some p.2)) ++ [(Mk.s_extra, some [])] ++ e) Mk.s_extra with
+        | some none => (O.dflt.map fun p : Str × Str => (p.1, some p.2)) ++ [(Mk.s_extra, some [])] ++ e ++ [(Mk.s_extra, some [])]
+        | _ => (O.dflt.map fun p : Str × Str => (p.1, some p.2)) ++ [(Mk.s_extra, some [])] ++ e := by rfl
     rw [hc] at hn ⊢
-    have hx : ∃ x, ((O.dflt.map fun p => (p.1, some p.2)) ++ [(Mk.s_extra, some [])] ++ e).get? Mk.s_extra = some x := by
+    have hx : ∃ x, Mk.Env.get? ((O.dflt.map fun p : Str × Str => (p.1, some p.2)) ++ [(Mk.s_extra, some [])] ++ e) Mk.s_extra = some x := by
       simp only [MkEval.get?_append, MkEval.get?_single, if_true]
       cases e.get? Mk.s_extra with
       | none => exact ⟨_, rfl⟩
@@ -854,5 +864,77 @@ theorem Marker.evaluate_eq_model (O : PyMk.Oracle) (hd : (O.dflt.map Prod.fst).N
     Gen.PySrc.Marker.evaluate O.ext (ofMarker m) (ofSupplied supplied) =
       ofRes PyVal.bool (Mk.evaluate O.toExt O.dflt supplied m) :=
   Marker.evaluate_eq_model' O (DfltDict_of_nodup O hd) supplied m hn
+
+/-! ### the hypothesis on the default environment is needed
+
+`Oracle.ext` hands `O.dflt` to the translated code as the item list of a dict, where a lookup finds the *first* binding
+of a key; the model's `Env.get?` finds the *last*.  With a repeated key the two sides disagree. -/
+
+def cexOracle : PyMk.Oracle where
+  canon := id
+  specOk := fun _ => false
+  specContains := fun _ _ => none
+  dflt := [(Mk.s_pfv, [49]), (Mk.s_pfv, [50])]
+
+/-- `python_full_version == "1"` -/
+def cexMarker : List Mk.M := [.atom ⟨.var Mk.s_pfv, [61, 61], .val [49]⟩]
+
+theorem Marker.evaluate_dup_keys_counterexample :
+    (∀ env, Mk.buildEnv cexOracle.dflt none = .ok env → NoNone env) ∧
+    Gen.PySrc.Marker.evaluate cexOracle.ext (ofMarker cexMarker) (ofSupplied none) = .ok (.bool true) ∧
+    ofRes PyVal.bool (Mk.evaluate cexOracle.toExt cexOracle.dflt none cexMarker) = .ok (.bool false) := by
+  refine ⟨?_, by rfl, by rfl⟩
+  intro env h
+  have h' : Mk.buildEnv cexOracle.dflt none =
+      .ok [(Mk.s_pfv, some [49]), (Mk.s_pfv, some [50]), (Mk.s_extra, some [])] := by rfl
+  rw [h'] at h
+  cases h
+  intro k hk
+  simp only [Mk.Env.get?, List.reverse_cons, List.reverse_nil, List.nil_append, List.cons_append, List.find?_cons,
+    List.find?_nil] at hk
+  split at hk <;> rename_i hf
+  · split at hf
+    · cases hf; cases hk
+    · split at hf
+      · cases hf; cases hk
+      · split at hf
+        · cases hf; cases hk
+        · cases hf
+  · cases hk
+
+/-! ## `format_full_version` -/
+
+theorem ofs_final : ofString "final" = [102, 105, 110, 97, 108] := by rfl
+theorem ofs_dot : ofString "." = [46] := by rfl
+
+/-- `format_full_version(info)`; `none` = `IndexError` (`kind[0]` of an empty release level) -/
+def formatFullVersion (major minor micro : Nat) (level : Str) (serial : Nat) : Option Str :=
+  let v := dec major ++ [46] ++ dec minor ++ [46] ++ dec micro
+  if level == [102, 105, 110, 97, 108] then some v
+  else match level with
+    | [] => none
+    | c :: _ => some (v ++ ([c] ++ dec serial))
+
+theorem getitem_str_zero (c : Nat) (s : Str) : getitem (.str (c :: s)) (.int 0) = .ok (.str [c]) := by
+  simp [getitem, asInt, normIndex]
+
+theorem getitem_str_nil_zero : getitem (.str []) (.int 0) = .error "IndexError" := by
+  simp [getitem, asInt, normIndex, indexError]
+
+theorem format_full_version_eq_model (major minor micro : Nat) (level : Str) (serial : Nat) :
+    Gen.PySrc.format_full_version (.obj "version_info" [("major", .int major), ("minor", .int minor),
+        ("micro", .int micro), ("releaselevel", .str level), ("serial", .int serial)]) =
+      match formatFullVersion major minor micro level serial with
+      | some s => .ok (.str s)
+      | none => .error "IndexError" := by
+  unfold Gen.PySrc.format_full_version formatFullVersion
+  simp (config := {decide := true}) only [getattr_obj, lookupField_cons, lookupField_nil, BEq.rfl, if_true, if_false, ok_bind, format_nat,
+    pure_ok, ofs_final, ofs_dot, eq_str, str_nat, Bool.false_eq_true]
+  cases hl : level == [102, 105, 110, 97, 108] with
+  | true => simp
+  | false =>
+    cases level with
+    | nil => simp [getitem_str_nil_zero]
+    | cons c r => simp [getitem_str_zero, add]
 
 end Src
